@@ -464,7 +464,8 @@ class NostrQuery(BaseModel):
                 if k.startswith("#") and len(k) == 2 and isinstance(v, list):
                     tags.append((k[1], set(v)))
             tags.sort(reverse=True)
-        except AttributeError:
+        except (AttributeError, TypeError):
+            # not an object, or a tag value that is not a string (e.g. a nested array)
             raise StorageError("not a query")
         if tags:
             obj["tags"] = tags
